@@ -1,15 +1,16 @@
 #!/bin/bash
 # usage: matrix.sh <slot> <mutant-id> <PROP> [PROP...]  — records which checks catch a seeded change
 slot=$1; id=$2; shift 2
-out=/verif/seeded/$id/detect.log
+base=${BASE:-/verif/seeded}
+out=$base/$id/detect.log
 : > $out
 for p in "$@"; do
-  SLOT=$slot /verif/tools/try_mutant.sh /verif/seeded/$id/patch.diff $p >> $out 2>&1
+  SLOT=$slot /verif/tools/try_mutant.sh $base/$id/patch.diff $p >> $out 2>&1
 done
-python3 - "$id" <<'PY'
+python3 - "$id" "$base" <<'PY'
 import json,re,sys
-id=sys.argv[1]
-log=open('/verif/seeded/%s/detect.log'%id).read()
+id=sys.argv[1]; base=sys.argv[2]
+log=open('%s/%s/detect.log'%(base,id)).read()
 res={}
 cur=None
 for l in log.splitlines():
@@ -21,7 +22,7 @@ for l in log.splitlines():
     if m and cur: res[cur]['failing'].append(m.group(1))
     m=re.match(r'rc=(\d+)',l)
     if m and cur: res[cur]['rc']=int(m.group(1))
-p='/verif/seeded/%s/meta.json'%id
+p='%s/%s/meta.json'%(base,id)
 meta=json.load(open(p))
 meta['detected_by']=[{'check':k,'exit':v['rc'],'violation_harnesses':v['violations'],'failing_harnesses':v['failing']} for k,v in res.items()]
 json.dump(meta,open(p,'w'),indent=1)
